@@ -45,3 +45,4 @@ func vParam(name string, def int) int
 func vEngine() bool
 func vOr(a, b bool) bool
 func vAnd(a, b bool) bool
+func vTapeRewind()
